@@ -167,6 +167,8 @@ class SDim(SV):
     def sv_getattr(self, it, name):
         if name == "is_Mul" or name == "is_Pow" or name == "is_Number" or name == "is_Atom":
             raise Unsupported("structural query %s on dimension" % name)
+        if name in ("is_Unit", "units", "value", "shape", "registry", "dimensions", "expr"):
+            raise PyRaise("AttributeError")
         raise Unsupported("dimension attribute %s" % name)
 
 
@@ -560,6 +562,8 @@ class UnytDomain:
             return self.null_unit(it)
         if fq == "unyt._unit_lookup_table.default_unit_symbol_lut":
             return self.default_lut(it)
+        if fq == "unyt.array._COPY_IF_NEEDED":
+            return None          # assumed: NumPy >= 2 (the installed one); see ASSUMED['numpy2']
         if fq in ("unyt.array.delta_degC", "unyt.array.delta_degF",
                   "unyt._array_functions.delta_degC"):
             return self.named_unit(it, name)
@@ -602,6 +606,10 @@ class UnytDomain:
 
     def obj_setattr(self, it, obj, name, value):
         it.ctx.events.append(("setattr", obj, name, value))
+        if obj.cls.name == "Unit" and name == "expr" and isinstance(value, SDim) \
+                and not is_z3(value.ref) and value.ref == REF_ONE:
+            obj.fields["expr"] = SExpr(E_ONE)      # sympy's S.One used as a unit expression
+            return True
         return False
 
     def obj_binop(self, it, obj, op, other, reflected):
@@ -793,6 +801,8 @@ DEFAULT_INLINE = {
     "unyt.unit_object.Unit.get_conversion_factor",
     "unyt.unit_object.Unit.__hash__",
     "unyt.array._iterable",
+    "unyt.array._coerce_iterable_units",
+    "unyt.array._get_binary_op_return_class",
     "unyt.array.unyt_array.__new__",
     "unyt.array.unyt_quantity.__new__",
     "unyt.array.unyt_array.d",
@@ -894,6 +904,10 @@ def _sympy_kind(k):
         if isinstance(obj, SExpr):
             return e_kind(obj.term) == k
         if isinstance(obj, SDim):
+            if not is_z3(obj.ref) and obj.ref == REF_ONE:
+                return k == K_NUM             # S.One is a Number, not Symbol/Pow/Mul
+            if not is_z3(obj.ref) and obj.ref in REF_BASE.values():
+                return k == K_SYM
             raise Unsupported("structural isinstance on a dimension")
         return False
     return h
@@ -1004,6 +1018,19 @@ def _type(it, x):
     h = getattr(x, "sv_type", None)
     if h is not None:
         return h(it)
+    x = const_float(x)
+    if isinstance(x, bool):
+        return ExternalRef("builtins.bool")
+    if is_floaty(x):
+        return ExternalRef("builtins.float")
+    if is_num(x):
+        return ExternalRef("builtins.int")
+    if is_str(x):
+        return ExternalRef("builtins.str")
+    if isinstance(x, list):
+        return ExternalRef("builtins.list")
+    if isinstance(x, tuple):
+        return ExternalRef("builtins.tuple")
     return Opaque("type")
 
 
@@ -1104,11 +1131,35 @@ def _issubclass(it, c, bases):
             if isinstance(b, ClassRef) and any(k.qualname == b.ci.qualname
                                                for k in it.repo.mro(c.ci)):
                 return True
+            if isinstance(b, ExternalRef) and b.name == "numpy.ndarray" and any(
+                    "ndarray" in base for k in it.repo.mro(c.ci) for base in k.bases):
+                return True
         return False
     if isinstance(c, ExcClassRef):
         return any(isinstance(b, ExcClassRef) and it.repo.exc_issubclass(c.name, b.name)
                    for b in bases)
+    if isinstance(c, ExternalRef):
+        sup = EXTERNAL_SUPERS.get(c.name)
+        if sup is None:
+            raise Unsupported("issubclass(%r)" % (c,))
+        for b in bases:
+            n = b.name if isinstance(b, (ExternalRef, Intrinsic)) else None
+            if n is not None and (n.split(".")[-1] in sup or n in sup):
+                return True
+        return False
     raise Unsupported("issubclass(%r)" % (c,))
+
+
+# python classes of primitive values and their (relevant) superclasses
+EXTERNAL_SUPERS = {
+    "builtins.float": {"float", "numbers.Number", "Number"},
+    "builtins.int": {"int", "numbers.Number", "Number"},
+    "builtins.bool": {"bool", "int", "numbers.Number", "Number"},
+    "builtins.str": {"str"},
+    "builtins.list": {"list"},
+    "builtins.tuple": {"tuple"},
+    "numpy.ndarray": {"numpy.ndarray", "ndarray"},
+}
 
 
 def _round(it, x, n=None):
@@ -1324,7 +1375,13 @@ assumed("Rational(str(p)).limit_denominator()", "denotes the number p exactly fo
 
 EXTERNAL_VALUES = {
     "numpy.pi": lambda it: Opaque("pi"),
+    # assumed: optional third-party array libraries (dask) are not imported
+    "sys.modules": lambda it: {},
 }
+assumed("numpy2", "module-level NumPy version switches are resolved for NumPy >= 2 "
+        "(_COPY_IF_NEEDED is None; the `if NUMPY_VERSION >= 2` arms are the ones indexed)")
+assumed("no-dask", "sys.modules holds none of the optional array libraries (dask): the dask "
+        "short-circuit of __array_ufunc__ is outside the model")
 EXTERNAL_CALLS = {
     "collections.OrderedDict": _ordered_dict,
     "sympy.sympify": _sympify,
